@@ -98,6 +98,18 @@ def seqState (st : HSt) (name : String) (exts : List String) (cargs : List ILPur
   { st with hyb := st.hyb + 1,
             pending := (popPending st.pending (tmpsOfPures cargs ++ tmpsOfPure v)).2 ++ [seqPend st name exts cargs v] }
 
+/-- the pending entry of a value call with pass-through arguments (`callPend` with the tokens in front) -/
+def callxPend (st : HSt) (name : String) (exts : List String) (cargs : List ILPure) (ret : CT) : Pend :=
+  { tmp := tmpName st.hyb, deps := (popPending st.pending (tmpsOfPures cargs)).1.map Pend.render,
+    exec := callxEffect name exts cargs,
+    setTmp := .setl (tmpName st.hyb)
+      (if ret.signed then .signed ret.width (.varl "ret_val") else .unsigned ret.width (.varl "ret_val")),
+    setFirst := false, gcc := false }
+
+def callxState (st : HSt) (name : String) (exts : List String) (cargs : List ILPure) (ret : CT) : HSt :=
+  { st with hyb := st.hyb + 1,
+            pending := (popPending st.pending (tmpsOfPures cargs)).2 ++ [callxPend st name exts cargs ret] }
+
 def wrapThen (st : HSt) (n : String) (c : ILPure) : HSt :=
   { st with pending := st.pending.map (fun p => if p.tmp == n then { p with exec := .branch c p.exec .empty } else p) }
 
@@ -130,6 +142,7 @@ def hybCountE : CExpr → Nat
   | .call _ args _ _ => hybCountEs args + 1
   | .stmtexpr _ _ e => hybCountE e + 1
   | .seqexpr _ _ args _ val => hybCountEs args + hybCountE val + 1
+  | .callx _ _ args _ _ => hybCountEs args + 1
   | _ => 0
 def hybCountEs : List CExpr → Nat
   | [] => 0
@@ -174,6 +187,7 @@ def exprNames : CExpr → List String
   | .call _ args _ _ => exprsNames args
   | .stmtexpr _ v e => v :: exprNames e
   | .seqexpr _ _ args _ val => exprsNames args ++ exprNames val
+  | .callx _ _ args _ _ => exprsNames args
   | _ => []
 def exprsNames : List CExpr → List String
   | [] => []
@@ -228,6 +242,7 @@ def noConstTernE : CExpr → Bool
   | .call _ args _ _ => noConstTernEs args
   | .stmtexpr _ _ e => noConstTernE e
   | .seqexpr _ _ args _ val => noConstTernEs args && noConstTernE val
+  | .callx _ _ args _ _ => noConstTernEs args
   | _ => true
 def noConstTernEs : List CExpr → Bool
   | [] => true
